@@ -43,6 +43,10 @@ claims={
    text="Every $dnsrewrite loader and every registered record-type handler is proved to return either an error with a nil rewrite or a rewrite satisfying the published shape predicate (CNAME carries nothing else; a record type only with RCODE success; dynamic type of the value determined by the record type; PTR values end in a dot), for all input strings; each handler is checked against the contract of the handler function type under the key it is registered with in the package initialiser, and the dispatch in loadDNSRewriteNormal uses only that contract. All index, slice, nil and type-assertion obligations of these functions are discharged (no crash).",
    note=TB+"; netip.ParseAddr/Is4, strconv.ParseUint, dns.Fqdn, strings.Split enter as assumed contracts; the key set of dnsRewriteRRHandlers is read from the package initialiser and the map is checked syntactically never to be written elsewhere.",
    ref="5 C10", tech="contract-based deductive verification: WP over go/ssa, function-type contract with refinement obligations"),
+ "C02":dict(level="proof",
+   text="DNSEngine.MatchRequest is proved, for every engine state satisfying the data invariants and every request: (1) an empty name yields an empty, unmatched result; (2) every reported network rule satisfies the Match specification of C04 for the request the engine builds (a document request for http://<name> without a source, carrying the client data, record type and sorted tags of the DNS request - each field of the pooled request is proved equal to that function of the DNS request); (3) NetworkRule is the basic rule of NetworkRules in the sense of C06/C07/C08 (an effective, non-special member that no other candidate outranks; nil iff there is none or a $replace rule is present); (4) if it is non-nil the result is matched and no hosts-file rule is consulted or returned; (5) otherwise every rule in HostRulesV4/HostRulesV6 is a host rule having the queried name among its names (the re-check after the hash hit: collisions of the 32-bit hash never add a rule), filed under V4 iff its address is IPv4; every host rule already materialised in the storage cache under an index stored for hash(name) and naming the host is returned; (6) matched is true iff a basic rule or a host entry was found. IsHostLevelNetworkRule is proved equal to its specification; HostRule.Match is proved equal to membership of the name; FastHash to the djb2 fold.",
+   note=TB+"; NOT proved (needs the index invariants of C01, not built): completeness of the network-rule lookup (that every matching host-level rule of the lists is reported) and that lookupTable holds an index for every name of every scanned host rule (the construction side of the hosts table); completeness of the hosts answer is therefore proved relative to the table content and to rules materialised in the cache (an unreadable list may legitimately drop the others, C19). Sortedness of the request's client tags is a precondition (documented on the field).",
+   ref="5 C02", tech="contract-based deductive verification: WP over go/ssa, loop invariants, two-state cache monotonicity, SMT portfolio"),
  "C20":dict(level="proof",
    text="findBodyInjectionIndex is proved (loop invariant, any body length) to return the first position inside the inspected prefix - the first min(16384, len) characters - at which one of the four markers occurs case-insensitively, or -1 when there is none; filterHTML is proved to publish, on success, a body equal to the transcoding of T when there is no injection point and of T[:i] + tag + T[i:] at the injection point i otherwise (T = the decompressed body transcoded from Latin-1; exactly one splice, nothing dropped or duplicated), a ContentLength equal to the length of that new body and no Content-Encoding header; all slice/index/nil obligations of the three functions are discharged.",
    note=TB+"; gzip and the Latin-1 codec (proxyutil.ReadDecompressedBody/DecodeLatin1/EncodeLatin1), bytes.NewReader, io.NopCloser, Header.Del, strings.EqualFold and math.Min are assumed contracts that only NAME their results through ghost functions; that the codec maps each original byte to one character and back (so that the statement about T is the statement about the original bytes, and the 16 KiB window is measured on T) is the documented behaviour of the codec and is not machine-checked; floats are mathematical reals; the tag is whatever buildInjectionCode returns (named, not specified). filterHTML's precondition (a response with a body and a header map) is the caller's obligation (onResponse is not under contract).",
